@@ -244,6 +244,16 @@ fn gen_delta(t: &mut Tape, with_data: bool) -> Delta {
     Delta::new(gen_uuid(t), gen_serial(t), elements)
 }
 
+trait PairExt {
+    fn uri_and_hash_pair(self) -> (uri::Https, Hash);
+}
+impl PairExt for DeltaInfo {
+    fn uri_and_hash_pair(self) -> (uri::Https, Hash) {
+        let uh: &UriAndHash = &self;
+        uh.clone().into_pair()
+    }
+}
+
 #[derive(Clone, Debug, PartialEq, Eq)]
 enum Doc {
     Notification(NotificationFile),
@@ -311,6 +321,83 @@ impl Doc {
             }),
             _ => false,
         }
+    }
+    /// Every public accessor of the parsed value against the original (the
+    /// derived `Eq` looks at fields, callers look through accessors).
+    fn accessors_agree(&self, other: &Doc) -> Result<(), String> {
+        macro_rules! same {
+            ($what:expr, $a:expr, $b:expr) => {{
+                let a = $a;
+                let b = $b;
+                if a != b {
+                    return Err(format!("{}: {:?} vs {:?}", $what, a, b));
+                }
+            }};
+        }
+        match (self, other) {
+            (Doc::Notification(a), Doc::Notification(b)) => {
+                same!("session_id", a.session_id(), b.session_id());
+                same!("serial", a.serial(), b.serial());
+                same!("snapshot.uri", a.snapshot().uri().as_str(), b.snapshot().uri().as_str());
+                same!("snapshot.hash", a.snapshot().hash().as_slice().to_vec(), b.snapshot().hash().as_slice().to_vec());
+                same!("snapshot.hash text", a.snapshot().hash().to_string(), b.snapshot().hash().to_string());
+                same!("delta_status", a.delta_status().is_ok(), b.delta_status().is_ok());
+                same!("deltas.len", a.deltas().len(), b.deltas().len());
+                for (x, y) in a.deltas().iter().zip(b.deltas()) {
+                    same!("delta.serial", x.serial(), y.serial());
+                    same!("delta.uri", x.uri().as_str(), y.uri().as_str());
+                    same!("delta.hash", x.hash().as_slice().to_vec(), y.hash().as_slice().to_vec());
+                    let (u1, h1) = x.clone().uri_and_hash_pair();
+                    let (u2, h2) = y.clone().uri_and_hash_pair();
+                    same!("delta.into_pair", (u1.as_str().to_string(), h1.to_string()), (u2.as_str().to_string(), h2.to_string()));
+                }
+            }
+            (Doc::Snapshot(a), Doc::Snapshot(b)) => {
+                same!("session_id", a.session_id(), b.session_id());
+                same!("serial", a.serial(), b.serial());
+                same!("elements.len", a.elements().len(), b.elements().len());
+                for (x, y) in a.elements().iter().zip(b.elements()) {
+                    same!("publish.uri", x.uri().as_str(), y.uri().as_str());
+                    same!("publish.data", x.data(), y.data());
+                    let (u1, d1) = x.clone().unpack();
+                    let (u2, d2) = y.clone().unpack();
+                    same!("publish.unpack", (u1.as_str().to_string(), d1), (u2.as_str().to_string(), d2));
+                }
+                same!("into_elements", a.clone().into_elements().len(), b.clone().into_elements().len());
+            }
+            (Doc::Delta(a), Doc::Delta(b)) => {
+                same!("session_id", a.session_id(), b.session_id());
+                same!("serial", a.serial(), b.serial());
+                same!("elements.len", a.elements().len(), b.elements().len());
+                for (x, y) in a.elements().iter().zip(b.elements()) {
+                    match (x, y) {
+                        (DeltaElement::Publish(x), DeltaElement::Publish(y)) => {
+                            same!("publish.uri", x.uri().as_str(), y.uri().as_str());
+                            same!("publish.data", x.data(), y.data());
+                        }
+                        (DeltaElement::Update(x), DeltaElement::Update(y)) => {
+                            same!("update.uri", x.uri().as_str(), y.uri().as_str());
+                            same!("update.hash", x.hash().as_slice().to_vec(), y.hash().as_slice().to_vec());
+                            same!("update.data", x.data(), y.data());
+                            let (u1, h1, d1) = x.clone().unpack();
+                            let (u2, h2, d2) = y.clone().unpack();
+                            same!("update.unpack", (u1.as_str().to_string(), h1.to_string(), d1), (u2.as_str().to_string(), h2.to_string(), d2));
+                        }
+                        (DeltaElement::Withdraw(x), DeltaElement::Withdraw(y)) => {
+                            same!("withdraw.uri", x.uri().as_str(), y.uri().as_str());
+                            same!("withdraw.hash", x.hash().as_slice().to_vec(), y.hash().as_slice().to_vec());
+                            let (u1, h1) = x.clone().unpack();
+                            let (u2, h2) = y.clone().unpack();
+                            same!("withdraw.unpack", (u1.as_str().to_string(), h1.to_string()), (u2.as_str().to_string(), h2.to_string()));
+                        }
+                        _ => return Err("element kind differs".into()),
+                    }
+                }
+                same!("into_elements", a.clone().into_elements().len(), b.clone().into_elements().len());
+            }
+            _ => return Err("document kind differs".into()),
+        }
+        Ok(())
     }
     fn summary(&self) -> String {
         match self {
@@ -588,6 +675,16 @@ impl C09 {
                     "roundtrip-rejected",
                     doc.kind(),
                     format!("{} written by the library is rejected by its parser: {} (read cfg {:?}); document tail: {}", doc.summary(), e, rcfg, tail(&bytes)),
+                ));
+            }
+        }
+        if let Ok(p) = &parsed {
+            let res = guarded("accessors", || Ok(p.accessors_agree(doc)))?;
+            if let Err(what) = res {
+                return Err(Violation::new(
+                    "roundtrip-mismatch",
+                    "accessor",
+                    format!("{} parses back equal but an accessor disagrees: {}", doc.summary(), what),
                 ));
             }
         }
